@@ -17,7 +17,7 @@ func init() {
 	register(&Check{
 		ID: "C10", Level: "exploration", Primary: "pipelines", EvalCount: "pipelines_checked",
 		Rule: "pipelines <k requests> Unbind <m requests> for all k,m in 0..3 (0..8 in thorough) x {whole pipeline in one write (same TCP segment), one write per frame, byte-dribbled} x {no unbind route, unbind route registered, unbind route whose handler panics} x " +
-			"{earlier handlers finished, earlier handlers parked on a harness gate} x {plain, TLS}; the requests after the Unbind include every operation kind and a second Unbind. Oracle: the set of dispatched message IDs equals the k earlier ones; " +
+			"{earlier handlers finished, earlier handlers parked on a harness gate (also 63..300 of them at once)} x {plain, TLS}; the requests after the Unbind include every operation kind and a second Unbind. Oracle: the set of dispatched message IDs equals the k earlier ones; " +
 			"the unbind handler ran exactly once when registered; the strictly parsed stream up to EOF contains exactly one response per earlier request and nothing carrying the Unbind's or a later request's message ID; " +
 			"with parked handlers EOF is not seen before the gate opens and is seen after. distinct_nontrivial = distinct (k, m, write mode, route, parked, transport) combinations",
 		Assume: []string{"'dispatched' is observed by recording handlers on every route kind including the default route"},
@@ -57,6 +57,14 @@ func c10Run(c *Ctx) {
 						}
 					}
 				}
+			}
+		}
+	}
+	// many earlier handlers still in flight when the Unbind arrives (any internal per-connection limit must not swallow it)
+	for _, k := range []int{63, 64, 65, 100, 300} {
+		for _, route := range []int{0, 1} {
+			for _, tr := range []string{"plain", "tls"} {
+				cases = append(cases, c10Case{k, 2, "one-write", route > 0, false, true, tr})
 			}
 		}
 	}
